@@ -513,9 +513,9 @@ func genVisoTree(r *rng, big bool) (*tree, string) {
 			t.add(tnode{path: p, kind: 'f', size: sz, seed: int64(r.intn(250)), mtime: genMtime(r)})
 		}
 	}
-	if big && r.chance(50) {
-		for i, sz := range []int64{1<<32 - 2048, 1 << 32, 1<<32 + 1, 9 << 30} {
-			if r.chance(40) {
+	if big {
+		for i, sz := range []int64{1<<32 - 2048, 1 << 32, 1<<32 + 1, 9 << 30, 2 * (1<<32 - 2048), 2*(1<<32-2048) + 1, 1<<32 - 1} {
+			if r.chance(35) {
 				n := tnode{path: join(dir, fmt.Sprintf("huge%d.bin", i)), kind: 'f', size: sz, seed: sparseSeed, mtime: genMtime(r)}
 				for _, off := range []int64{0, 2047, 1<<32 - 2048 - 50, 1<<32 - 50, sz - 100, sz / 2} {
 					if off >= 0 && off+100 <= sz {
@@ -651,7 +651,8 @@ func init() {
 		if thorough {
 			visoStream(o, r, 300, 60, true)
 		} else {
-			visoStream(o, r, 40, 25, false)
+			visoStream(o, r, 34, 25, false)
+			visoStream(o, r, 6, 25, true) // a few trees with sparse multi-GiB files (multi-extent records)
 		}
 	}
 	replayFns["viso"] = func(line string) (string, string) {
